@@ -3,6 +3,7 @@ import Prom.Drv.Desc
 import Prom.Drv.Vec
 import Prom.Drv.Reg
 import Prom.Drv.Local
+import Prom.Drv.Timer
 /- Line-protocol driver: one request per line on stdin, one result per line on stdout. -/
 open Prom Prom.Drv
 
@@ -11,12 +12,14 @@ structure DState where
   vec : VecSt := {}
   reg : RegSt := {}
   loc : LocalSt := {}
+  tw : TW := {}
 
 def step (st : DState) (line : String) : DState × String :=
   match line.trimAscii.toString.splitOn " " with
   | ["case"] => ({}, "case")
   | "hist" :: args => (st, histHandle args)
   | "desc" :: args => (st, descHandle args)
+  | "timer" :: args => let (v, o) := timerHandle st.tw args; ({ st with tw := v }, o)
   | "local" :: args => let (v, o) := localHandle st.loc args; ({ st with loc := v }, o)
   | "reg" :: args => let (v, o) := regHandle st.reg args; ({ st with reg := v }, o)
   | "vec" :: args => let (v, o) := vecHandle st.vec args; ({ st with vec := v }, o)
